@@ -7,13 +7,13 @@ hooks_commits = subprocess.run(["git", "-C", "/repo", "log", "--format=%H", "--g
 CHECKS = {
  "C01": dict(
    category="exploration",
-   text="Runtime monitor: the real Client.Start is driven with ~2.5k (quick) / ~114k (thorough) generated first-stdout-lines x client configurations (per-field pools, wrappers, truncations, byte mutations, and the full cross product of protocol x certificate x multiplexing field values for every configuration) through a scripted in-process runner (and a sample through a real subprocess) under the race detector; an independent reference parser written from the statement decides, per case, whether acceptance was allowed and whether the reported protocol/version/address equal the line; nil / typed-nil addresses, panics and Start calls outliving the hang threshold are violations. Held = held on the executions listed in the evidence, not a proof over all byte strings.",
+   text="Runtime monitor: the real Client.Start is driven with ~2.5k (quick) / ~114k (thorough) generated first-stdout-lines x client configurations (per-field pools, wrappers, truncations, byte mutations, and the full cross product of protocol x certificate x multiplexing field values for every configuration) through a scripted in-process runner (and a sample through a real subprocess) under the race detector; an independent reference parser written from the statement decides, per case, whether acceptance was allowed and whether the reported protocol/version/address (also from a second Start and from ReattachConfig) equal the line; nil / typed-nil addresses, panics and Start calls outliving the hang threshold are violations. Held = held on the executions listed in the evidence, not a proof over all byte strings.",
    design_ref="DESIGN.md section 3, C01",
    note="Trusts: Go stdlib (strconv, net.Resolve*Addr, x509) inside the reference parser; the scripted runner as a faithful stand-in for a process' stdout pipe (cross-checked by the real-subprocess sample); hang threshold H=max(4*StartTimeout, StartTimeout+15s).",
    technique="runtime monitoring: reference-parser oracle over generated handshake lines, race detector on"),
  "C10": dict(
    category="exploration",
-   text="Runtime monitor: ~950 (quick) / ~16k (thorough) stderr byte sequences and stdout volumes are written by a scripted in-process plugin through unbuffered pipes into the real Client; the copy delivered to ClientConfig.Stderr and the exact log records (captured with an hclog intercept sink) are compared with a reference line/record model written from the statement; a writer still blocked after the watchdog, a host death, a copy or record mismatch is a violation.",
+   text="Runtime monitor: ~1k (quick) / ~16k (thorough) stderr byte sequences and stdout volumes (over-long ASCII, multi-byte UTF-8 and binary lines) are written by a scripted in-process plugin through unbuffered pipes into the real Client; the copy delivered to ClientConfig.Stderr and the exact log records (captured with an hclog intercept sink) are compared with a reference line/record model written from the statement; a writer still blocked after the watchdog, a host death, a copy or record mismatch is a violation.",
    design_ref="DESIGN.md section 3, C10",
    note="Trusts encoding/json in the reference model; in-process io.Pipe stands in for the OS pipes (no 64 KiB kernel buffer: stricter on back-pressure). Lenient classes (ill-typed JSON, lines longer than the buffer) are listed in the evidence assumptions.",
    technique="runtime monitoring: reference log-record model over generated stderr/stdout byte streams, race detector on"),
@@ -43,7 +43,7 @@ CHECKS = {
    technique="runtime monitoring: unique-token routing oracle over recorded accept/dial events, hook-point jitter, race detector"),
  "C07": dict(
    category="exploration",
-   text="Runtime monitor: rounds of 1-32 concurrently outstanding ids on a real in-process gRPC connection without multiplexing, both directions and orders, in-process and against real subprocesses behind custom runners that translate addresses (other path spelling; unix socket reached through a TCP forwarder, i.e. another network kind) with call counters on the translator; every accepted id serves a PingPong service answering '<id>/<nonce>', the dialler's first call must be answered by its own id's server; jitter at the grpcbroker hook points; race detector on.",
+   text="Runtime monitor: rounds of 1-32 concurrently outstanding ids on a real in-process gRPC connection without multiplexing, both directions and orders, in-process and against real subprocesses behind custom runners that translate addresses (other path spelling; unix socket reached through a TCP forwarder, i.e. another network kind) with call counters on the translator; pairs on ids that were dialled once in vain before; every accepted id serves a PingPong service answering '<id>/<nonce>', the dialler's first call must be answered by its own id's server; jitter at the grpcbroker hook points; race detector on.",
    design_ref="DESIGN.md section 3, C07",
    note="In-process pair via plugin.TestPluginGRPCConn (no TLS); TLS and address-translation paths are exercised through real subprocesses by other checks.",
    technique="runtime monitoring: id/nonce echo oracle over brokered gRPC connections, hook-point jitter, race detector"),
@@ -67,7 +67,7 @@ CHECKS = {
    technique="runtime monitoring: launch-marker oracle against an independently computed digest, exhaustive single-bit/prefix sub-spaces"),
  "C04": dict(
    category="exploration",
-   text="Runtime monitor: real plugin subprocesses in nine shutdown behaviours (exit at once / after 200-1000 ms cleanup / never / busy / SIGSTOPped with state T awaited / already dead / failed handshake) x three protocols x three launch methods x four call patterns (single, sequential, concurrent Kill, CleanupClients over mixed managed clients in a host process of their own); after each Kill call returns the monitor reads /proc/<pid>/stat, Exited() and a cleanup-marker file written by the plugin after its cleanup; race detector on both processes.",
+   text="Runtime monitor: real plugin subprocesses in nine shutdown behaviours (exit at once / after 200-1000 ms cleanup / after 1.2 s cleanup with a call that ignores cancellation in flight / never / busy / SIGSTOPped with state T awaited / already dead / failed handshake) x three protocols x three launch methods x four call patterns (single, sequential, concurrent Kill, CleanupClients over mixed managed clients in a host process of their own); after each Kill call returns the monitor reads /proc/<pid>/stat, Exited() and a cleanup-marker file written by the plugin after its cleanup; race detector on both processes.",
    design_ref="DESIGN.md section 3, C04",
    note="Bounded-time reading: Kill counts as hung after H=max(4N,N+15s); frozen net/rpc and mux plugins (bounded only by the 30+10 s yamux keep-alive) run in the thorough tier only; the not-force-killed clause is judged for non-concurrent patterns.",
    technique="runtime monitoring: /proc + cleanup-marker oracle over real subprocess shutdown behaviours, race detector"),
@@ -79,7 +79,7 @@ CHECKS = {
    technique="runtime monitoring: version-tag echo + raw handshake line capture, set-arithmetic oracle (exhaustive in thorough)"),
  "C03": dict(
    category="fault_enumeration",
-   text="Fault enumeration by runtime monitor: named crash points (hook points inside go-plugin armed to SIGKILL / os.Exit, points in the scripted plugin, external SIGKILL while idle and at seeded instants under traffic) x three protocols x the host operation in flight, on real subprocesses; every in-flight and subsequent host call is recorded at the API boundary and must return within the hang threshold, with an error where it needed the plugin; Exited() and the gRPC client context are polled as bounded progress after the observed death; the host child must survive.",
+   text="Fault enumeration by runtime monitor: named crash points (hook points inside go-plugin armed to SIGKILL / os.Exit, points in the scripted plugin, external SIGKILL while idle and at seeded instants under traffic, plugins that printed more lines with the handshake line and later exit by themselves) x three protocols x the host operation in flight, on real subprocesses; every in-flight and subsequent host call is recorded at the API boundary and must return within the hang threshold, with an error where it needed the plugin; Exited() and the gRPC client context are polled as bounded progress after the observed death; the host child must survive.",
    design_ref="DESIGN.md section 3, C03",
    note="Nominal bounds <= 6 s, hang threshold 24 s; a crash point that is never reached makes the case inconclusive.",
    technique="runtime monitoring: crash-point injection via hook points and signals, call/return log judged against a needs-the-plugin table"),
@@ -91,7 +91,7 @@ CHECKS = {
    technique="runtime monitoring: prefix-of-regenerated-stream oracle over self-describing frames, race detector on both processes"),
  "C12": dict(
    category="exploration",
-   text="Runtime monitor with hostile peers: for every connection path (main listeners of all three protocols incl. a race for the multiplexed listener's single session, plugin-side and host-side brokered gRPC listeners) intruders with five credential classes speak the real wire protocol and any answered RPC is a violation, while a positive control by the legitimate peer must succeed in the same case; plugins started directly with PLUGIN_CLIENT_CERT in eight unusual shapes are attacked the same way; impostor plugins announce one certificate and serve another (or plaintext) with the real protocol and any completed host RPC is a violation.",
+   text="Runtime monitor with hostile peers: for every connection path (main listeners of all three protocols incl. a race for the multiplexed listener's single session, plugin-side and host-side brokered gRPC listeners) intruders with five credential classes speak the real wire protocol and any answered RPC is a violation, while a positive control by the legitimate peer must succeed in the same case; plugins started directly with PLUGIN_CLIENT_CERT in eight unusual shapes are attacked the same way; impostor plugins announce one certificate and serve another (or plaintext, or another leaf with the announced certificate appended to its chain) with the real protocol and any completed host RPC is a violation.",
    design_ref="DESIGN.md section 3, C12",
    note="Samples credential classes with fresh keys per case; cases without a successful positive control are inconclusive.",
    technique="runtime monitoring: intruder/impostor probes with positive controls against real AutoMTLS plugin processes"),
@@ -109,7 +109,7 @@ CHECKS = {
    technique="runtime monitoring: classification-table oracle over the real configuration cross product (exhaustive in thorough)"),
  "C15": dict(
    category="exploration",
-   text="Runtime monitor: seeded histories of reattach (first and second generation), put/get through any client, concurrent put/get through two clients, kill through any client, reattach-after-death and reattach after a test-mode server stopped (re-used config object, second-generation config), against real plugin processes and in-process test-mode servers; oracles: reference {alive,dead} state machine with a sequential store, instance-id equality, /proc state, errors.Is(ErrProcessNotFound), Exited() of every client of a killed plugin, CloseCh, and a porcupine per-key register linearizability check of the concurrent phase.",
+   text="Runtime monitor: seeded histories of reattach (first and second generation), put/get through any client, concurrent put/get through two clients, kill through any client, reattach-after-death (asked twice on the same client) and reattach after a test-mode server stopped (re-used config object, second-generation config), against real plugin processes and in-process test-mode servers; oracles: reference {alive,dead} state machine with a sequential store, instance-id equality, /proc state, errors.Is(ErrProcessNotFound), Exited() of every client of a killed plugin, CloseCh, and a porcupine per-key register linearizability check of the concurrent phase.",
    design_ref="DESIGN.md section 3, C15",
    note="Test-mode cases run in a host process of their own because the serving process is the host.",
    technique="runtime monitoring: reference state machine + porcupine register linearizability over recorded histories"),
